@@ -38,10 +38,11 @@ Proof.
 Qed.
 Lemma op_eqb_eq a b : op_eqb a b = true -> a = b.
 Proof.
-  destruct a as [d s|i s|d i|t|i|[p|]], b as [d' s'|i' s'|d' i'|t'|i'|[p'|]]; cbn [op_eqb]; intros H; try discriminate.
+  destruct a as [d s|i s|d i|t|i|[[d0 s0|i0 s0|d0 i0|t0|i0|o0]|]], b as [d' s'|i' s'|d' i'|t'|i'|[[d0' s0'|i0' s0'|d0' i0'|t0'|i0'|o0']|]]; cbn [op_eqb]; intros H; try discriminate.
   - apply andb_prop in H as [H1 H2]. apply scalar_eqb_eq in H1. apply expr_eqb_eq in H2. congruence.
   - apply andb_prop in H as [H1 H2]. apply expr_eqb_eq in H1. apply expr_eqb_eq in H2. congruence.
   - apply andb_prop in H as [H1 H2]. apply scalar_eqb_eq in H1. apply expr_eqb_eq in H2. congruence.
+  - apply expr_eqb_eq in H. congruence.
   - apply expr_eqb_eq in H. congruence.
   - reflexivity.
 Qed.
@@ -91,7 +92,7 @@ Qed.
 
 (* what the checker's tie establishes about a dumped graph *)
 Lemma syntactic_tie_sound m addr len i g succ : syntactic_tie m addr len i g succ = true ->
-  mirror_instr m addr i = Some (Ok g) /\ succ = [(addr + len, None)].
+  mirror_instr m addr i = Some (Ok g) /\ succ = mirror_succ m addr len i.
 Proof.
   unfold syntactic_tie. destruct (mirror_instr m addr i) as [[g'| |]|]; intros H; try discriminate.
   apply andb_prop in H as [H1 H2]. apply cfg_eqb_eq in H1. apply (list_eqb_eq _ succ_eqb_eq) in H2. subst. auto.
